@@ -360,7 +360,9 @@ func (r *reiter) Referrers(ctx context.Context, repo string, d ociregistry.Diges
 }
 
 // Upload session names starting with "e" stand for the EMPTY upload id, names starting with
-// "o" for odd ones; such a session is resumed without ever having been started.
+// "o" for odd ones; such a session is resumed without ever having been started.  (For the
+// empty id the registry makes up a fresh id at every resume, so each "e" name, which the
+// generators resume once only, is a session of its own.)
 var oddIDs = []string{"../x", " ", "0", "a/b", "%2e%2e", "fresh-u1?x=1"}
 
 func oddID(u string) (string, bool) {
@@ -372,7 +374,9 @@ func oddID(u string) (string, bool) {
 		for _, ch := range u[1:] {
 			n = n*7 + int(ch)
 		}
-		return oddIDs[n%len(oddIDs)], true
+		// the session name is part of the id: two names never share an id within a history
+		// (the registry would rightly continue the one session, the model has two)
+		return oddIDs[n%len(oddIDs)] + "~" + u, true
 	}
 	return "", false
 }
